@@ -231,8 +231,9 @@ NOT_APPLICABLE = {
            "not be the real code",
     "C09": "concurrent async handlers over tokio Mutex/RwLock and a client round trip; Kani does not handle concurrency",
     "C10": "absence of side effects and a dependency-graph property; there is no assertion over inputs for a solver to decide",
-    "C16": "whole-program glue over the curated dictionary, serde and wasm-bindgen; its solver-amenable ingredients are decided "
-           "under C03 and C13",
+    "C16": "whole-program glue over the curated dictionary, serde and wasm-bindgen (constructing the wasm Linter builds all ~290 curated "
+           "rules - out of reach of the MIR engine, and Kani cannot compile Document::new); its solver-amenable ingredients are decided "
+           "under C03, C05, C11, C13 and C14",
     "C19": "serialising a Record crashes the Kani compiler and the crux (JSON escaping never emits a raw line break) lives in "
            "serde_json, whose one-character round trip gave no verdict in 15 min",
 }
